@@ -209,7 +209,8 @@ inline rc::Gen<int64_t> seq_gen() { return bnd({1, 2, 0x00FF, 0xFF00, 0xFFFF}, 1
 inline rc::Gen<int64_t> seq0_gen() { return bnd({0, 1, 2, 0x00FF, 0x0100, 0x8000, 0xFF00, 0xFFFF}, 0, 0xFFFF, 1, 1); }   // requests that are answered whatever their sequence number
 inline rc::Gen<int64_t> gen_gen() { return bnd({0, 1, 0x00FF, 0xFF00, 0xFFFF, 0x1234, 0x3412}, 0, 0xFFFF, 2, 1); }
 inline rc::Gen<Bytes> emit_descs(int maxn) {
-    return rc::gen::mapcat(range<int>(1, maxn), [](int n) {
+    // now and then an Emit that carries no descriptor at all (nothing to do for it; whatever follows must work as before)
+    return rc::gen::mapcat(rc::gen::map(rc::gen::pair(range<int>(0, 15), range<int>(1, maxn)), [](std::pair<int, int> p) { return p.first == 0 ? 0 : p.second; }), [](int n) {
         return rc::gen::map(rc::gen::container<std::vector<Bytes>>((size_t)n, rc::gen::exec([] {
             Bytes d(14);
             d[0] = (uint8_t)*pick({0, 1});
